@@ -280,6 +280,38 @@ static int run_lifo(std::istringstream& hs, const std::string& header)
     return run_lifo_t<fixed_block_allocator<up_alloc>>([&] { return new fixed_block_allocator<up_alloc>(bs); }, header, bs);
 }
 
+// ---------------------------------------------------------------- valid histories of a stack over the LIFO-only block sources
+// (blocks go to the arena's cache on unwind and back to the source on shrink_to_fit / destruction: always newest first,
+//  or the source's order check reports a release that was valid).  Everything runs in this process: a report stops it.
+template <class Stack, class Make>
+static int run_lstack_t(Make make, const std::string& header)
+{
+    Stack* st = make();
+    std::printf("%s = ok | ptr=%d asserts=%d\n", header.c_str(), FOONATHAN_MEMORY_DEBUG_POINTER_CHECK, FOONATHAN_MEMORY_DEBUG_ASSERT);
+    std::vector<typename Stack::marker> ms; std::string line;
+    while (std::getline(std::cin, line))
+    {
+        std::istringstream is(line); std::string op; is >> op; std::string res;
+        if (op == "a") { std::size_t size; is >> size; try { st->allocate(size, 8); res = "ok"; } catch (...) { res = std::string("throw ") + classify_current(); } }
+        else if (op == "m") { ms.push_back(st->top()); res = "marker " + std::to_string(ms.size() - 1); }
+        else if (op == "u") { std::size_t k; is >> k; if (ms.empty()) { std::printf("%s = skipped\n", line.c_str()); continue; } k %= ms.size(); st->unwind(ms[k]); ms.erase(ms.begin() + long(k) + 1, ms.end()); res = "unwound"; }
+        else if (op == "s") { st->shrink_to_fit(); res = "shrunk"; }
+        else if (op == "r") { delete st; ms.clear(); st = make(); res = "destroyed and rebuilt"; }
+        else continue;
+        std::printf("%s = %s | blocks=%zu cached=%zu\n", line.c_str(), res.c_str(), st->arena_.size(), st->arena_.cache_size());
+        std::fflush(stdout);
+    }
+    delete st;
+    std::printf("end = destroyed\n");
+    return 0;
+}
+static int run_lstack(std::istringstream& hs, const std::string& header)
+{
+    std::string kind; std::size_t bs; hs >> kind >> bs;
+    if (kind == "static") { static static_allocator_storage<1 << 16> stg; return run_lstack_t<memory_stack<static_block_allocator>>([&] { return new memory_stack<static_block_allocator>(bs, stg); }, header); }
+    return run_lstack_t<memory_stack<virtual_block_allocator>>([&] { return new memory_stack<virtual_block_allocator>(4096, std::size_t(8)); }, header);
+}
+
 // ---------------------------------------------------------------- unwind above the top
 static int run_unwind(std::istringstream& hs, const std::string& header)
 {
@@ -384,6 +416,7 @@ int main()
     if (mode == "small") return run_small(hs, header);
     if (mode == "unord") return run_unord(hs, header);
     if (mode == "lifo") return run_lifo(hs, header);
+    if (mode == "lstack") return run_lstack(hs, header);
     if (mode == "unwind") return run_unwind(hs, header);
     if (mode == "pool")
     {
